@@ -57,6 +57,8 @@ type state struct {
 	eventsNotifyCount   prometheus.Counter
 	eventsFinishedCount prometheus.Counter
 	xorTreeRepair       *xorTreeRepair
+	// addMutex makes a write of Add and the reload of the trees after its rollback a single critical section.
+	addMutex sync.Mutex
 }
 
 func (s *state) Migrate() error {
@@ -168,6 +170,12 @@ func (s *state) Add(ctx context.Context, transaction Transaction, payload []byte
 		return nil
 	}
 
+	// The database releases its write lock before it calls OnRollback. Another Add must not get in between: it would
+	// insert into (and persist) trees that still contain the transaction that is rolled back.
+	s.addMutex.Lock()
+	unlock := sync.OnceFunc(s.addMutex.Unlock)
+	defer unlock()
+
 	return s.db.Write(ctx, func(tx stoabs.WriteTx) error {
 		// TX already present on DAG, nothing to do
 		// We need to do this check again, because a concurrent call could've added the TX (e.g. we got it from another peer).
@@ -207,6 +215,7 @@ func (s *state) Add(ctx context.Context, transaction Transaction, payload []byte
 		// the rollback may be caused by the cancellation of ctx: the reload must not be cancelled with it
 		s.loadState(context.WithoutCancel(ctx))
 	}), stoabs.AfterCommit(func() {
+		unlock() // receivers may add transactions
 		if txAdded {
 			s.notify(txEvent)
 			if emitPayloadEvent {
